@@ -17,7 +17,9 @@ def main(c):
     ttcheck.run(c, "C02", groups=[0, 1, 2, 3], parts=PARTS, spec=specnum,
                 spec_files=["TensorIndex.v", "NsatzTac.v", "TensorTactics.v", "C02Spec.v"],
                 prop_files_quick=["Properties_C02.v"], prop_files_thorough=["Properties_C02_full.v"],
-                conditional={"A_convert": ("Properties_C02_convert.v", "Properties_C02_convert_refuted.v")})
+                conditional={"A_convert": ("Properties_C02_convert.v", "Properties_C02_convert_refuted.v"),
+                             # computeDeterminantSecondDerivative(tensor<N>): finding shared with C06 (thorough tier only)
+                             "B_d2det": ("Properties_C02_d2det.v", "Properties_C02_d2det_refuted.v", 1)})
     c.coverage["rule"] = ("every operation of the registry (props/C02/trace.cxx) x N=1,2,3 (quick: all but the most expensive 3D instances); "
                           "seeded inputs per operation: generic reals in [-2,2], small integers incl. zeros and ties, one magnitude 1e-3..1e3 per input; "
                           "invertible tensors = identity + perturbation (det > 0)")
